@@ -263,7 +263,10 @@ def run(run):
             continue
         fcp = res.unwrap()
         nodes = schema_nodes(sch)
-        for j, (name, v, sig) in enumerate(cases):
+        seen_per_struct = {}
+        for name, v, sig in cases:
+            j = seen_per_struct.get(name, 0)  # index of this value among the values of ITS struct
+            seen_per_struct[name] = j + 1
             if uid.startswith(("grid", "cgrid")) and j not in run.pick((3,), (2, 3, 4)):  # asym (+max, random) values for the grids
                 continue
             try:
